@@ -5,7 +5,7 @@
     of Model/Bitstr.v on the whole int32 range since the /repo fix b2a771a —
     Proofs/Bitstr32Proofs.v). *)
 From Coq Require Import ZArith List Bool String.
-From Low Require Import Lib.Bits Lib.BitSeq Lib.Bytes Lib.Lex Lib.Val Lib.Pack_bw Model.Bitstr Model.Bitstr32 Spec.BitstrSpec Spec.BitstrSearchSpec Spec.BitstrDecodeSpec.
+From Low Require Import Lib.Bits Lib.BitSeq Lib.Bytes Lib.Lex Lib.Val Lib.Pack_bw Model.Bitstr Model.Bitstr32 Model.BitstrSession Spec.BitstrSpec Spec.BitstrSearchSpec Spec.BitstrDecodeSpec Spec.BitstrSessionSpec.
 Import ListNotations.
 Open Scope string_scope.
 Open Scope Z_scope.
@@ -25,6 +25,20 @@ Fixpoint c09_bits_eqb (a b : list bool) : bool :=
   | x :: a', y :: b' => Bool.eqb x y && c09_bits_eqb a' b'
   | _, _ => false
   end.
+
+(** [[s,f,t], ...] *)
+Definition c09_as_range (v : val) : option range :=
+  match v with
+  | VL [s; f; t] => match as_zs s, as_z f, as_z t with
+                    | Some s, Some f, Some t => Some (s, f, t) | _, _, _ => None end
+  | _ => None
+  end.
+Definition c09_as_ranges (v : val) : option (list range) :=
+  match v with VL l => opt_all (map c09_as_range l) | _ => None end.
+Definition c09_range_okb (r : range) : bool := let '(s, f, t) := r in range_ok s f t.
+Definition c09_steps (l : list (list Z * Z * Z)) : val :=
+  VL (map (fun x => let '(e, n, c) := x in VL [vzs e; VZ n; VZ c]) l).
+Definition c09_triples (l : list Z) : val := VL (map (fun r => VL [VZ r; VZ r; VZ r]) l).
 
 Definition ops_C09 : list opdef := [
   {| op_name := "bitstr.New";
@@ -151,5 +165,71 @@ Definition ops_C09 : list opdef := [
        | [s; f; t] => match as_zs s, as_z f, as_z t, as_zs obs with
            | Some s, Some f, Some t, Some e => wf_enc e && c09_bits_eqb (decB e) (B s f t)
            | _, _, _, _ => false end
-       | _ => false end |}
+       | _ => false end |};
+  (* WIDENED (call sequences): every range is encoded in turn by New; the executor renders [e, Len(e), Cmp(e, pristine copy
+     of the previous encoding)] and then OVERWRITES the slice New returned with junk — results are values, so no later step
+     may change *)
+  {| op_name := "bitstr.Session/scribble";
+     op_run := fun a => match a with
+       | [rs] => match c09_as_ranges rs with
+           | Some rs => if forallb c09_range_okb rs then
+                          match session_run None rs with Some l => c09_steps l | None => VPanic end
+                        else VBad
+           | None => VBad end
+       | _ => VBad end;
+     op_spec := fun_spec (fun a => match a with
+       | [rs] => match c09_as_ranges rs with
+           | Some rs => c09_steps (session_spec None rs) | None => VBad end
+       | _ => VBad end) |};
+  (* WIDENED (views): the two encodings are copied back to back into a junk-filled arena and passed as views of it
+     (bytes after len are not zero, cap >= 8): [Cmp(v1,v2), Cmp(v1,fresh2), Cmp(fresh1,v2), arena unchanged] *)
+  {| op_name := "bitstr.Cmp/packed";
+     op_run := fun a => match a with
+       | [s1; f1; t1; s2; f2; t2] => match as_zs s1, as_z f1, as_z t1, as_zs s2, as_z f2, as_z t2 with
+           | Some s1, Some f1, Some t1, Some s2, Some f2, Some t2 =>
+               if range_ok s1 f1 t1 && range_ok s2 f2 t2 then
+                 match bind (New32 s1 f1 t1) (fun e1 => bind (New32 s2 f2 t2) (fun e2 => Cmp e1 e2)) with
+                 | Some c => VL [VZ c; VZ c; VZ c; VZ 1] | None => VPanic end
+               else VBad
+           | _, _, _, _, _, _ => VBad end
+       | _ => VBad end;
+     op_spec := fun_spec (fun a => match a with
+       | [s1; f1; t1; s2; f2; t2] => match as_zs s1, as_z f1, as_z t1, as_zs s2, as_z f2, as_z t2 with
+           | Some s1, Some f1, Some t1, Some s2, Some f2, Some t2 =>
+               let c := VZ (spec_Cmp s1 f1 t1 s2 f2 t2) in VL [c; c; c; VZ 1]
+           | _, _, _, _, _, _ => VBad end
+       | _ => VBad end) |};
+  (* WIDENED (views): key and encoding are adjacent views of one junk-filled arena:
+     [CmpUpto(keyview, encview), StrCmpUpto(string(key), encview), arena unchanged] *)
+  {| op_name := "bitstr.CmpUpto/packed";
+     op_run := fun a => match a with
+       | [x; s; f; t] => match as_zs x, as_zs s, as_z f, as_z t with
+           | Some x, Some s, Some f, Some t =>
+               if bytes_okb x && range_ok s f t then
+                 match bind (New32 s f t) (CmpUpto x) with Some r => VL [VZ r; VZ r; VZ 1] | None => VPanic end
+               else VBad
+           | _, _, _, _ => VBad end
+       | _ => VBad end;
+     op_spec := fun_spec (fun a => match a with
+       | [x; s; f; t] => match as_zs x, as_zs s, as_z f, as_z t with
+           | Some x, Some s, Some f, Some t =>
+               let r := VZ (spec_CmpUpto x s f t) in VL [r; r; VZ 1]
+           | _, _, _, _ => VBad end
+       | _ => VBad end) |};
+  (* WIDENED (aliased arguments): e = New(s,f,t); for every k = 0..len(e) the key is the view e[:k] of e's own buffer:
+     [[CmpUpto(e[:k], e), CmpUpto(copy of e[:k], e), StrCmpUpto(string(e[:k]), e)] for k], e unchanged] *)
+  {| op_name := "bitstr.CmpUpto/alias";
+     op_run := fun a => match a with
+       | [s; f; t] => match as_zs s, as_z f, as_z t with
+           | Some s, Some f, Some t =>
+               if range_ok s f t then
+                 match bind (New32 s f t) alias_run with Some rs => VL [c09_triples rs; VZ 1] | None => VPanic end
+               else VBad
+           | _, _, _ => VBad end
+       | _ => VBad end;
+     op_spec := fun_spec (fun a => match a with
+       | [s; f; t] => match as_zs s, as_z f, as_z t with
+           | Some s, Some f, Some t => VL [c09_triples (alias_spec (B s f t)); VZ 1]
+           | _, _, _ => VBad end
+       | _ => VBad end) |}
 ].
